@@ -22,11 +22,11 @@ theorem isYield_not_runnable {t : Thread} (h : t.isYield = true) : t.isRunnable 
   unfold isYield at h
   unfold isRunnable
   have : t.state = .yield := by simpa using h
-  rw [this]
+  rw [this]; rfl
 
 theorem setRunnable_spec (t : Thread) :
     t.setRunnable.isRunnable = true ∧ t.setRunnable.isYield = false ∧
-    t.setRunnable = { t with state := .runnable false } := ⟨rfl, rfl, rfl⟩
+    t.setRunnable = { t with state := .runnable, parked := false } := ⟨rfl, rfl, rfl⟩
 
 end Thread
 
@@ -149,7 +149,7 @@ theorem reactivate_getElem? (ths : List Thread) (nid i : Nat) :
   simp [List.getElem?_mapIdx]
 
 /-- the last loop of `schedule`: every thread in `yield` state other than the chosen one is set
-back to `runnable false`; all other threads keep their state, and only the chosen thread's DPOR
+back to `runnable`; all other threads keep their state, and only the chosen thread's DPOR
 clock changes -/
 theorem yield_reactivated {e e' : Exec} {pk b : Bool} {nid : Nat}
     (h : e.schedule pk = .ok (e', b)) (hn : e'.threads.active = some nid) :
